@@ -173,7 +173,9 @@ class WriteMultipleRegistersRequest(ModbusRequest):
         self.address, self.count, \
         self.byte_count = struct.unpack('>HHB', data[:5])
         self.values = []  # reset
-        for idx in range(5, (self.count * 2) + 5, 2):
+        # decode the registers that are really there; a quantity or byte
+        # count that contradicts the data is rejected in execute()
+        for idx in range(5, min((self.count * 2) + 5, len(data) - 1), 2):
             self.values.append(struct.unpack('>H', data[idx:idx + 2])[0])
 
     def execute(self, context):
@@ -185,6 +187,8 @@ class WriteMultipleRegistersRequest(ModbusRequest):
         if not (1 <= self.count <= 0x07b):
             return self.doException(merror.IllegalValue)
         if (self.byte_count != self.count * 2):
+            return self.doException(merror.IllegalValue)
+        if len(self.values) != self.count:
             return self.doException(merror.IllegalValue)
         if not context.validate(self.function_code, self.address, self.count):
             return self.doException(merror.IllegalAddress)
